@@ -419,7 +419,92 @@ func c16cBody(c *run.Ctx) {
 			l.in += p.Bankroll
 		}
 	}
+	// reservations of newcomers issued from another goroutine while the hand is being opened
+	// (the gate fires on a goroutine of its own): every accepted one must be at the table
+	// afterwards, on a seat of its own, with the bookkeeping of C03 intact
+	type racing struct {
+		ids  []string
+		errs []error
+		done chan struct{}
+	}
+	var rc *racing
+	settleRacing := func(s *sim.Sim) {
+		if rc == nil {
+			return
+		}
+		r := rc
+		rc = nil
+		select {
+		case <-r.done:
+		case <-time.After(s.StepWait):
+			if !pokertable.VerifTryLock(s.TE) {
+				s.Label("racing_reservations_blocked_behind_open_retry")
+				return
+			}
+			c.Failf("C16.racing-reservation-stuck", "reservations issued while hand %d was opening did not return although the engine lock is free", len(s.Hands))
+		}
+		s.Quiesce(200 * time.Millisecond)
+		now := s.Now()
+		for i, id := range r.ids {
+			if r.errs[i] != nil {
+				continue
+			}
+			l.in += 100
+			n := 0
+			for _, p := range now.State.PlayerStates {
+				if p.PlayerID == id {
+					n++
+				}
+			}
+			if n != 1 {
+				c.Failf("C16.reservation-lost-while-hand-opened", "PlayerReserve(%s) was accepted while hand %d was opening, but the player list names him %d times: %s", id, len(s.Hands), n, tableSummary(now))
+			}
+		}
+		if sig, msg := seatConsistency(now, pokertable.VerifSeatManager(s.TE)); sig != "" && sig != "C03.sm-isin" {
+			c.Failf("C16."+strings.TrimPrefix(sig, "C03."), "after reservations racing with the opening of hand %d: %s; %s | sm: %s", len(s.Hands), msg, tableSummary(now), smDump(pokertable.VerifSeatManager(s.TE)))
+		}
+		s.Label("reservations_racing_with_open")
+		nontrivial = true
+	}
+	racerSeq := 0
+	o.BeforeHand = func(s *sim.Sim, n int) bool {
+		if s.GateArmed == nil || !choose.Chance(c.Ch, "race.reserve", 25) {
+			return true
+		}
+		free := len(sim.FreeSeats(s.Now()))
+		k := c.Ch.Int("race.reserve.n", 1, 3)
+		if k > free {
+			k = free
+		}
+		if k == 0 {
+			return true
+		}
+		r := &racing{done: make(chan struct{}), errs: make([]error, k)}
+		for i := 0; i < k; i++ {
+			racerSeq++
+			r.ids = append(r.ids, fmt.Sprintf("r%02d", racerSeq))
+		}
+		delay := time.Duration(c.Ch.Int("race.reserve.delay", 0, 60)) * 5 * time.Microsecond
+		rc = r
+		api := s.API
+		go func() {
+			defer close(r.done)
+			time.Sleep(delay)
+			for i, id := range r.ids {
+				r.errs[i] = api.PlayerReserve(pokertable.JoinPlayer{PlayerID: id, RedeemChips: 100, Seat: -1})
+			}
+		}()
+		return true
+	}
+	userOpened := hooks.Opened
+	hooks.Opened = func(s *sim.Sim, h *sim.Hand) {
+		if userOpened != nil {
+			userOpened(s, h)
+		}
+		settleRacing(s)
+	}
 	o.AfterHand = func(s *sim.Sim, h *sim.Hand) {
+		settleRacing(s)
 		if h.After == nil {
 			return
 		}
@@ -428,6 +513,9 @@ func c16cBody(c *run.Ctx) {
 		l.checkSum(fmt.Sprintf("after hand %d", h.N), h.After)
 	}
 	s := RunHistory(c, o, hooks, nil)
+	if l != nil {
+		settleRacing(s)
+	}
 	if handEndedInBurst {
 		// wait for the engine to finish the continuation, then the table must balance
 		deadline := time.Now().Add(3 * time.Second)
